@@ -1,11 +1,16 @@
 """C13 Replacing an overloaded connection never abandons live requests.
 
 Engine E: breadth-first search over histories of {issue a request, answer any outstanding request
-(live or already given up), client timeout of any request, run the next executor task with its
+(live or already given up), answer a live request with an error that the retry policy retries on the
+same host (the retry is an executor task), client timeout of any request whose timer is running --
+outstanding, or already answered and waiting for its retry --, run the next executor task with its
 connect accepted or refused} on a real Session whose `HostConnection` (protocol v4) has an orphan
 threshold of 2 -- from the empty pool and from staged states with 0, 1 and 2 live requests on a
-connection that has just reached the threshold.  Engine S: the replacement task against the return
-of the last live request, against a borrow, and against the last live request timing out.
+connection that has just reached the threshold, without and with an earlier request whose timer
+fires (or has fired) after its response was processed.  Engine S: the replacement task against the
+return of the last live request, against a borrow, and against the last live request timing out; a
+request's timer thread against the reactor processing the response to that very request, before and
+during a replacement.
 """
 from vt import explore, sched
 from vt import poollib    # noqa: F401  (imported here so that forked workers inherit the loaded driver)
@@ -16,18 +21,26 @@ META = {
     'technique': 'explicit-state BFS over request/response/timeout/replacement-task histories with canonical-state dedup, plus '
                  'preemption-bounded schedule exploration of HostConnection, on the real Session over a virtual server; monitor on close()',
     'text': 'HostConnection (v4; 5 request slots, orphan threshold 2) inside a real Cluster/Session.  Engine E: all histories up to the '
-            'depth bound of: new request, answer to any outstanding request (incl. late answers to orphaned streams), client timeout of any '
-            'request, next executor task (the replacement) with its connect accepted or refused (then retried); started from the fresh pool '
-            'and from states where the connection has just reached the threshold with 0, 1 or 2 live requests on it.  A hook on close() '
+            'depth bound of: new request, answer to any outstanding request (incl. late answers to orphaned streams), answer to a live '
+            'request with an error that the retry policy retries on the same host (at most one per history; the retry is an executor task), '
+            'client timeout of any request whose timer runs (incl. a request whose response has already been processed and whose retry is '
+            'still queued: its stream is no longer on the wire), next executor task (replacement or retry) with its connect accepted or '
+            'refused (then retried); started from the fresh pool and from states where the connection has just reached the threshold with '
+            '0, 1 or 2 live requests on it, the 2-live state also with an answered request whose retry is queued and whose timer is still '
+            'running, and after that timer fired.  A hook on close() '
             'judges, at the moment the pool closes a connection, that no request the client still waits for is outstanding on it (what is '
             'outstanding is taken from what the server received and answered, what was given up from the explorer\'s own timeout '
             'events).  In every state: a connection that was replaced and carries only orphaned streams is closed; once the threshold was '
             'reached, a later request was issued and no task is queued, the pool no longer uses that connection; a request issued after '
             'the replacement completed is not sent on the old connection.  Engine S: 2-3 virtual threads (executor worker running _replace, '
-            'reactor answering / timing out, client borrowing) with a scheduling point at every line of every HostConnection method and at '
-            'every lock/condition; all schedules within the preemption bound; close() hook throughout, the state clauses at the end after '
-            'everything outstanding was answered; deadlock and livelock detection.',
-    'note': 'Virtual server, clock, executor and connections as in DESIGN.md section 2.  Client timeouts may expire in any order.  '
+            'reactor answering / timing out, client borrowing, a timer thread firing the client timeout of the request the reactor is '
+            'answering -- followed single-threaded by two more requests being given up, a new request, the replacement and the answers to '
+            'the three live requests one by one; and the same race while the replacement task runs) with a scheduling point at every line '
+            'of every HostConnection method and at every lock/condition; all schedules within the preemption bound; close() hook '
+            'throughout, the state clauses at the end after everything outstanding was answered; deadlock and livelock detection.',
+    'note': 'Virtual server, clock, executor and connections as in DESIGN.md section 2.  Client timeouts may expire in any order, and a '
+            'timer may run on another thread than the one that processes responses (engine S).  A stream id being handed out again while '
+            'the retry of its previous user is queued needs more requests than the bounds allow (ids are recycled first-in first-out).  '
             'Connection failures and shutdown are left to C12 (same world).',
     'design_ref': 'C13',
 }
@@ -58,7 +71,8 @@ def e_configs(ctx):
                                                 n_req=7), 5),
     ]
     if ctx.thorough:
-        q = [(n, dict(p, task_window=2, max_fail=2), d + (3 if '2-live' in n else 2)) for n, p, d in q]
+        q = [(n, dict(p, task_window=2, max_fail=2), d + (1 if n.startswith('retry-queued') else 3 if '2-live' in n else 2))
+             for n, p, d in q]
     return q
 
 
@@ -101,12 +115,15 @@ def run(ctx):
     ctx.cov['engine_E'] = {'states': e_states, 'transitions': e_trans}
     ctx.cov['engine_S'] = {'executions': s_execs}
     ctx.cov['rule'] = ('engine E: state = event history replayed on a fresh real Session; non-trivial = distinct canonical state in '
-                       'which a connection was closed or refused, or a request orphaned / answered late.  engine S: execution = one '
+                       'which a connection was closed or refused, or a request orphaned / answered late / answered with a retried error.  '
+                       'engine S: execution = one '
                        'schedule within the preemption bound; non-trivial = schedule with a non-default choice.  outcomes = (pool '
                        'open/shut down, connections opened, closed, trashed, who closed them, orphaned streams)')
     ctx.assume('engine E: handlers are atomic with respect to each other; the races are the business of the engine S harnesses')
     ctx.assume('client timeouts may expire in any order (per-request timeouts are chosen by the application)')
-    ctx.assume('a reactor delivers bytes and fires timers from one thread (true of every shipped reactor)')
+    ctx.assume('a reactor delivers bytes from one thread; timers fire on that thread (engine E, true of every shipped reactor) or, in '
+               'the timer-vs-response harnesses of engine S, on a thread of their own')
+    ctx.assume('the retried error is OVERLOADED with the retry policy answering RETRY (same host); other retryable errors take the same path')
     ctx.assume('engine S preempts between source lines, not inside one (CPython hands the GIL over between bytecodes; see DESIGN 3.1)')
 
 
